@@ -1,7 +1,7 @@
 (* Properties_C12.v — the theorems that decide property C12 on the model, each stated in full and closed by
    `exact <lemma>`; the lemmas live in the Proofs_*.v files.  Nothing else belongs in this file. *)
 From Coq Require Import Sorting.Sorted.
-From Theo Require Import Base Regex Tokens Errors MacroExtract Grammar LR Gen_MacroGrammar Gen_Consts MacroApply SpecLex SpecMacro MacroStatements Proofs_Macro ApplyCompleteStatements CompileStatements ApplyStatements Proofs_ApplyComplete.
+From Theo Require Import Base Regex Tokens Errors MacroExtract Grammar LR Gen_MacroGrammar Gen_Consts MacroApply SpecLex SpecMacro MacroStatements Proofs_Macro ApplyCompleteStatements CompileStatements ApplyStatements Proofs_ApplyComplete PipelineStatements Lexer Scan Parser VMModel GenModel Compile Gen_Lexer LocErrStatements Proofs_Pipeline.
 Local Open Scope Z_scope.
 
 
@@ -68,3 +68,12 @@ Theorem C12_trailing_sep :
     is_usable d = false.
 Proof. exact C12_trailing_sep_proof. Qed.
 Print Assumptions C12_trailing_sep.
+
+Theorem C12_compiled :
+  forall files main c out macros bins m d t0 rest,
+    compile files main = Ok c -> front files main out macros bins ->
+    In m macros -> make_detector m = Ok d -> d_conflicts d <> [] -> m_rule m = t0 :: rest ->
+    cr_ok c = false /\
+    exists e, In e (cr_errors c) /\ ge_kind e = e_macro_non_lr /\ ge_file e = tfile t0 /\ ge_line e = tline t0.
+Proof. exact C12_compiled_proof. Qed.
+Print Assumptions C12_compiled.
